@@ -418,6 +418,8 @@ var racExps = []int32{0, 0, 0, -1, 1, -2, 2, -3, 3, -5, 5, -7, 7, -8, -9, 10, -1
 func init() {
 	// beyond the power-of-ten table (more than 128 digits): all nines, a power of ten, a value just above a rounding
 	// tie, a long fraction - seeds Y05, Z01 and Z19 need them to show on the real code
+	// multiples of 10^19 above 2^64 (a two-word value whose low decimal half is zero: seed I14)
+	racCoeffs = append(racCoeffs, "50000000000000000000", "100000000000000000000", "10000000000000000000000000000000000000")
 	racCoeffs = append(racCoeffs, strings.Repeat("9", 129), "1"+strings.Repeat("0", 129), "123451"+strings.Repeat("0", 129),
 		"7"+strings.Repeat("1234567890", 13)[:129], "777"+strings.Repeat("49", 70))
 }
